@@ -25,8 +25,59 @@ const smtPrelude = `(set-option :print-success false)
 (set-logic ALL)
 `
 
-// BuildScript renders the incremental script of one function.
-func (e *Engine) BuildScript(fr *FuncResult, timeoutMS int) string {
+// logNode is the fork tree of a function's log: entries first, then the alternatives.
+type logNode struct {
+	entries  []LogEntry
+	children []*logNode
+	checks   int // checks in the whole subtree
+}
+
+func buildLogTree(log []LogEntry) *logNode {
+	root := &logNode{}
+	stack := []*logNode{root}
+	for _, le := range log {
+		cur := stack[len(stack)-1]
+		switch le.Kind {
+		case "push":
+			n := &logNode{}
+			cur.children = append(cur.children, n)
+			stack = append(stack, n)
+		case "pop":
+			if len(stack) > 1 {
+				stack = stack[:len(stack)-1]
+			}
+		default:
+			if len(cur.children) > 0 {
+				// entries after a fork at the same level: keep order by opening a pseudo child
+				n := &logNode{}
+				cur.children = append(cur.children, n)
+				n.entries = append(n.entries, le)
+				continue
+			}
+			cur.entries = append(cur.entries, le)
+		}
+	}
+	var count func(n *logNode) int
+	count = func(n *logNode) int {
+		c := 0
+		for _, le := range n.entries {
+			if le.Kind == "check" {
+				c++
+			}
+		}
+		for _, ch := range n.children {
+			c += count(ch)
+		}
+		n.checks = c
+		return c
+	}
+	count(root)
+	return root
+}
+
+// BuildScripts renders the obligations of one function as incremental scripts
+// (one per chunk of the fork tree, so that chunks run in parallel).
+func (e *Engine) BuildScripts(fr *FuncResult, timeoutMS int, maxChecks int) []string {
 	var terms []*Term
 	for _, le := range fr.Log {
 		if le.T != nil {
@@ -35,32 +86,78 @@ func (e *Engine) BuildScript(fr *FuncResult, timeoutMS int) string {
 	}
 	sc := e.tb.NewScript()
 	sc.Prepare(terms)
-	var sb strings.Builder
-	sb.WriteString(smtPrelude)
-	sb.WriteString(sc.Header())
-	for _, le := range fr.Log {
+	header := smtPrelude + sc.Header()
+	root := buildLogTree(fr.Log)
+	var scripts []string
+	writeEntry := func(sb *strings.Builder, le LogEntry, assumeOnly bool) {
 		switch le.Kind {
-		case "push":
-			sb.WriteString("(push 1)\n")
-		case "pop":
-			sb.WriteString("(pop 1)\n")
 		case "assume":
 			sb.WriteString("(assert " + sc.TermText(le.T) + ")\n")
 		case "check":
-			fmt.Fprintf(&sb, "(echo \"@obl %d\")\n", le.Obl.Seq)
+			if assumeOnly {
+				if !le.Obl.Canary {
+					sb.WriteString("(assert " + sc.TermText(le.T) + ")\n")
+				}
+				return
+			}
+			fmt.Fprintf(sb, "(echo \"@obl %d\")\n", le.Obl.Seq)
 			if le.Obl.Canary {
 				sb.WriteString("(set-option :timeout 400)\n")
 			}
 			sb.WriteString("(push 1)\n(assert (not " + sc.TermText(le.T) + "))\n(check-sat)\n(pop 1)\n")
 			if le.Obl.Canary {
-				fmt.Fprintf(&sb, "(set-option :timeout %d)\n", timeoutMS)
+				fmt.Fprintf(sb, "(set-option :timeout %d)\n", timeoutMS)
 			}
 			if !le.Obl.Canary {
 				sb.WriteString("(assert " + sc.TermText(le.T) + ")\n")
 			}
 		}
 	}
-	return sb.String()
+	var full func(sb *strings.Builder, n *logNode)
+	full = func(sb *strings.Builder, n *logNode) {
+		for _, le := range n.entries {
+			writeEntry(sb, le, false)
+		}
+		for _, ch := range n.children {
+			sb.WriteString("(push 1)\n")
+			full(sb, ch)
+			sb.WriteString("(pop 1)\n")
+		}
+	}
+	var emit func(n *logNode, prefix []LogEntry)
+	emit = func(n *logNode, prefix []LogEntry) {
+		if n.checks == 0 {
+			return
+		}
+		var sb strings.Builder
+		sb.WriteString(header)
+		for _, le := range prefix {
+			writeEntry(&sb, le, true)
+		}
+		if n.checks <= maxChecks || len(n.children) == 0 {
+			full(&sb, n)
+			scripts = append(scripts, sb.String())
+			return
+		}
+		own := 0
+		for _, le := range n.entries {
+			if le.Kind == "check" {
+				own++
+			}
+		}
+		if own > 0 {
+			for _, le := range n.entries {
+				writeEntry(&sb, le, false)
+			}
+			scripts = append(scripts, sb.String())
+		}
+		np := append(append([]LogEntry{}, prefix...), n.entries...)
+		for _, ch := range n.children {
+			emit(ch, np)
+		}
+	}
+	emit(root, nil)
+	return scripts
 }
 
 // StandaloneScript renders one obligation as a self-contained query.
@@ -100,6 +197,19 @@ var solvers = []solverSpec{
 	{"z3", func(f string, t int) []string { return []string{"z3", fmt.Sprintf("-t:%d", t), f} }},
 	{"cvc5", func(f string, t int) []string {
 		return []string{"cvc5", "--incremental", fmt.Sprintf("--tlimit-per=%d", t), f}
+	}},
+	// the same solver with other random seeds: quantifier instantiation order varies a lot with the seed
+	{"z3-new/seed1", func(f string, t int) []string {
+		return []string{"z3-new", fmt.Sprintf("timeout=%d", t), "smt.random_seed=1", "sat.random_seed=1", f}
+	}},
+	{"z3-new/seed7", func(f string, t int) []string {
+		return []string{"z3-new", fmt.Sprintf("timeout=%d", t), "smt.random_seed=7", "sat.random_seed=7", f}
+	}},
+	{"z3-new/seed42", func(f string, t int) []string {
+		return []string{"z3-new", fmt.Sprintf("timeout=%d", t), "smt.random_seed=42", "sat.random_seed=42", f}
+	}},
+	{"z3-new/cs3", func(f string, t int) []string {
+		return []string{"z3-new", fmt.Sprintf("timeout=%d", t), "auto_config=false", "smt.case_split=3", f}
 	}},
 }
 
@@ -167,55 +277,48 @@ func (e *Engine) Discharge(results []*FuncResult, so SolveOpts) {
 		so.TimeoutMS = 10000
 	}
 	os.MkdirAll(so.OutDir, 0o755)
-	type job struct{ fr *FuncResult }
-	// phase 1: one incremental script per function on z3-new
+	// phase 1: incremental scripts (chunks of each function's fork tree) on z3-new, in parallel
 	var wg sync.WaitGroup
 	sem := make(chan struct{}, so.Jobs)
-	files := map[*FuncResult]string{}
+	incT := so.TimeoutMS
+	if incT > 3000 {
+		incT = 3000 // failures are retried standalone, in parallel, with the full timeout
+	}
+	var mu sync.Mutex
 	for _, fr := range results {
 		if len(fr.Obls) == 0 {
 			continue
 		}
-		incT := so.TimeoutMS
-		if incT > 3000 {
-			incT = 3000 // failures are retried standalone, in parallel, with the full timeout
+		for _, o := range fr.Obls {
+			o.Status = "unknown"
+			o.Solver = solvers[0].name
 		}
-		script := e.BuildScript(fr, incT)
-		f := filepath.Join(so.OutDir, sanitize(fr.Key)+".smt2")
-		os.WriteFile(f, []byte(script), 0o644)
-		files[fr] = f
-	}
-	for _, fr := range results {
-		f, ok := files[fr]
-		if !ok {
-			continue
-		}
-		wg.Add(1)
-		go func(fr *FuncResult, f string) {
-			defer wg.Done()
-			sem <- struct{}{}
-			defer func() { <-sem }()
-			hard := time.Duration(len(fr.Obls))*time.Duration(so.TimeoutMS)*time.Millisecond + 30*time.Second
-			if hard > 20*time.Minute {
-				hard = 20 * time.Minute
+		scripts := e.BuildScripts(fr, incT, 40)
+		for i, script := range scripts {
+			f := filepath.Join(so.OutDir, sanitize(fr.Key)+".smt2")
+			if i > 0 {
+				f = filepath.Join(so.OutDir, fmt.Sprintf("%s.part%d.smt2", sanitize(fr.Key), i+1))
 			}
-			incT := so.TimeoutMS
-			if incT > 3000 {
-				incT = 3000
-			}
-			out, secs := runSolver(solvers[0], f, incT, hard)
-			st := parseIncremental(out)
-			per := secs / float64(len(fr.Obls))
-			for _, o := range fr.Obls {
-				if s, ok := st[o.Seq]; ok {
-					o.Status = s
-				} else {
-					o.Status = "unknown"
+			os.WriteFile(f, []byte(script), 0o644)
+			wg.Add(1)
+			go func(fr *FuncResult, f string, nchecks int) {
+				defer wg.Done()
+				sem <- struct{}{}
+				defer func() { <-sem }()
+				hard := time.Duration(nchecks)*time.Duration(incT)*time.Millisecond + 30*time.Second
+				out, secs := runSolver(solvers[0], f, incT, hard)
+				st := parseIncremental(out)
+				mu.Lock()
+				defer mu.Unlock()
+				per := secs / float64(len(st)+1)
+				for _, o := range fr.Obls {
+					if s, ok := st[o.Seq]; ok {
+						o.Status = s
+						o.Time = per
+					}
 				}
-				o.Solver = solvers[0].name
-				o.Time = per
-			}
-		}(fr, f)
+			}(fr, f, strings.Count(script, "(check-sat)"))
+		}
 	}
 	wg.Wait()
 	// phase 2: everything not decided as expected is retried standalone on the portfolio
